@@ -21,6 +21,14 @@ NA = {
 PENDING = {k: "simulation target (DESIGN 3) whose check is still being built in this session; not claimed until its check is registered" for k in ("C06", "C11", "C13", "C14", "C18", "C19")}
 
 CHECKS = {
+ "C11": dict(engine="threadsim", category="exploration", design="DESIGN.md section 3 (C11)",
+   technique="deterministic simulation: generated binding programs run on real threads and a real reused pool under a seeded baton scheduler, push faults injected, per-thread binding-stack reference model",
+   text="Seeded search over generated programs (nested binding / with-bindings / runtime.bindings to depth 4, set!, try/throw, alter-var-root, future with creator work before deref, bound-fn on a fresh and on the same thread, pmap) executed by 1-3 real threads plus a real 1-3 worker pool with worker reuse; push faults (plain Var inside a multi-Var binding at every position, validator rejection) and body faults; the Var hash order that decides push order is a seeded permutation. Every probe's observed (*a* *b* *c*) is compared with a per-thread binding-stack model; catch clauses, probe counts and a final probe on every pool worker are checked. The forms under test are compiled by the real compiler (helpers once per lane; 6% of runs compile the whole program).",
+   note="Trusted: the 120-line binding-stack model, sim lock semantics; thread-locals are real because tasks are real threads. Root changes come from one designated thread and concurrent readers accept overlapping values."),
+ "C18": dict(engine="threadsim", category="exploration", design="DESIGN.md section 3 (C18)",
+   technique="deterministic simulation: op histories sequentially and spread over 2-4 real threads under a seeded baton scheduler, compared with a from-scratch instance and a closure reference model",
+   text="Seeded search over histories of add/remove/remove-all/prefer/derive/underive/call on one multimethod with a per-run hierarchy atom: 30% sequential (every dispatch value called after every op), 70% concurrent (1-2 mutators, 1-2 callers, edge-toggle scenarios, throwing dispatch fn) at line and opcode granularity, under 2 (quick) or 8 (thorough) PYTHONHASHSEED values. Oracles: O1 a fresh instance built from the current tables answers identically (after every op / after quiescence), also with reversed insertion order; O2 independent closure-model reference on undisputed cases; O3 every concurrent call is explained by a state version inside its invoke-return window; O4 isa?/parents/ancestors/descendants agree with the edge-set closure.",
+   note="Trusted: the closure model (basilisp's documented class semantics: supers are ancestors, derive relations of superclasses are not inherited), sim Lock/RLock semantics. Mutual-dominance and non-transitive preference chains are treated as disputed and accepted either way."),
  "C13": dict(engine="threadsim", category="exploration", design="DESIGN.md section 3 (C13)",
    technique="deterministic simulation: seeded baton scheduler + virtual clock with forward jumps over the real Delay/Promise/Future/ThreadPoolExecutor, linearizability vs write-once cell, timeout rules on virtual time",
    text="Seeded schedule search over 2-4 real threads racing one delay / promise / future (real pool, real stdlib worker loop on sim primitives) with bodies that yield, sleep in virtual time or throw from a palette incl. TimeoutError, timed derefs whose deadlines collide with deliveries, forward clock jumps and pool pressure; oracles: body at most one at a time and never after a normal return, all derefs agree, promise history linearizable against a write-once cell, timed deref yields the timeout value only if nothing completed before its virtual deadline and never early, future deref == body outcome, realized? monotone; lost wake-ups surface as kernel deadlock. Sampling with measured reach.",
